@@ -318,6 +318,8 @@ func runC10(c *Ctx) {
 	// forged IDs assembled from the session's timestamp and the tag the tracker has just issued to someone else
 	session := func() {
 		base := defaultUDPCase(r)
+		// configured clock skews, negative ones included: validation makes them zero (D30), an ID issued a moment ago is accepted
+		base.skew = []int64{10e9, 10e9, 0, -10e9, -300e9}[r.Intn(5)]
 		B := srcs[r.Intn(len(srcs))]
 		C := srcs[r.Intn(len(srcs))]
 		if ip4 := B.To4(); ip4 != nil && r.Intn(4) != 0 {
